@@ -555,8 +555,7 @@ type c09Oracle struct {
 	eqM   [][]int8
 	cmpM  [][]int8
 	totM  [][]int8
-	rank  [c09NKinds]int // observed order of the types under compare &total
-	ranks bool
+	kindOrd [c09NKinds][c09NKinds]int8 // observed order of the types under compare &total
 }
 
 func c09Matrix(n int, fill int8) [][]int8 {
@@ -750,8 +749,10 @@ func (o *c09Oracle) total(i, j int) int8 {
 	a, b := o.p.vs[i], o.p.vs[j]
 	var r int8
 	switch {
+	case c09FnPair(a.kind, b.kind):
+		r = c09NJ // is a builtin function of the same type as a closure? not documented
 	case a.kind != b.kind:
-		r = c09Sign(o.rank[a.kind] - o.rank[b.kind])
+		r = o.kindOrd[a.kind][b.kind]
 	case a.kind == c09Bool, a.kind == c09Number, a.kind == c09Str:
 		r = o.cmp(i, j)
 	case a.kind == c09List:
@@ -886,6 +887,17 @@ type c09Viol struct {
 	replay []string
 }
 
+// order ranks a counterexample: shortest total source text first, then by
+// position in the enumeration.
+func (h *c09H) order(idx ...int) int64 {
+	var size, pos int64
+	for _, i := range idx {
+		size += int64(len(h.p.vs[i].src))
+		pos = pos*int64(len(h.p.vs)) + int64(i)
+	}
+	return size<<40 | pos
+}
+
 func (h *c09H) violate(order int64, key string, replay []string, msg func() string) {
 	h.mu.Lock()
 	if h.pending == nil {
@@ -937,17 +949,40 @@ func c09Bool2(o int8) string {
 
 func c09Mixed(a, b *c09Num) bool { return a != nil && b != nil && a.exact != b.exact }
 
+// c09ViaFloat is the hypothesis "the two numbers were compared after
+// converting the exact one to float64" (nearest double; an integer outside the
+// int64 range becomes an infinity, as documented for inexact-num). It is used
+// only to select the violation key of a deviation, never for a verdict.
+func c09ViaFloat(a, b *c09Num) int8 {
+	conv := func(n *c09Num) float64 {
+		if !n.exact {
+			return n.f
+		}
+		if n.r.IsInt() && !n.r.Num().IsInt64() {
+			return math.Inf(n.r.Sign())
+		}
+		f, _ := n.r.Float64()
+		return f
+	}
+	x, y := conv(a), conv(b)
+	switch {
+	case x < y:
+		return -1
+	case x > y:
+		return 1
+	}
+	return 0
+}
+
 // blame locates the element pair at which an observed list/number comparison
 // departs from the oracle and reports whether that pair is an exact and an
-// inexact number (neither NaN) with different values that compare equal (the
-// one root cause the harness can recognise: comparison after rounding to
-// float64). It only selects the violation key, never the verdict.
+// inexact number (neither NaN) whose observed order is the one obtained by
+// converting the exact number to float64 (the one root cause the harness can
+// recognise). It only selects the violation key, never the verdict.
 func (h *c09H) blame(i, j int, obs [][]int8, orc func(i, j int) int8) bool {
 	a, b := h.p.vs[i], h.p.vs[j]
 	if a.kind == c09Number && b.kind == c09Number {
-		// rounding the exact number to float64 is monotonic: all it can do
-		// wrong is to make two different numbers compare equal
-		return c09Mixed(a.n, b.n) && !a.n.nan() && !b.n.nan() && obs[i][j] == 0 && orc(i, j) != 0
+		return c09Mixed(a.n, b.n) && !a.n.nan() && !b.n.nan() && obs[i][j] != orc(i, j) && obs[i][j] == c09ViaFloat(a.n, b.n)
 	}
 	if a.kind == c09List && b.kind == c09List {
 		for k := 0; k < len(a.elems) && k < len(b.elems); k++ {
@@ -981,6 +1016,14 @@ func (h *c09H) suffix(obs [][]int8, orc func(i, j int) int8, pairs ...[2]int) st
 	return ""
 }
 
+// c09FnPair: a closure and a builtin function. Both are of kind fn; whether
+// they have the same type for compare &total is not documented.
+func c09FnPair(a, b c09Kind) bool {
+	return a == c09Fn && b == c09BuiltinFn || a == c09BuiltinFn && b == c09Fn
+}
+
+// learnRanks observes the (unspecified) order of the types on one
+// representative per type and checks that it is a strict total order.
 func (h *c09H) learnRanks() {
 	// representative of every kind: the first pool value of that kind
 	rep := make([]int, c09NKinds)
@@ -992,28 +1035,46 @@ func (h *c09H) learnRanks() {
 			rep[v.kind] = i
 		}
 	}
+	ko := &h.o.kindOrd
 	for k := c09Kind(0); k < c09NKinds; k++ {
 		for k2 := c09Kind(0); k2 < c09NKinds; k2++ {
-			if k != k2 && c09Ord(vals.CmpTotal(h.p.vs[rep[k]].x, h.p.vs[rep[k2]].x)) == 1 {
-				h.o.rank[k]++
+			if k != k2 {
+				ko[k][k2] = c09Ord(vals.CmpTotal(h.p.vs[rep[k]].x, h.p.vs[rep[k2]].x))
 			}
 		}
 	}
-	// a strict total order gives the ranks 0..n-1, each once
-	seen := map[int]bool{}
-	for k := c09Kind(0); k < c09NKinds; k++ {
-		seen[h.o.rank[k]] = true
-	}
-	if len(seen) != int(c09NKinds) {
-		h.c.Violate("total-type-order", fmt.Sprintf("compare &total does not order the types %v strictly and totally: number of representatives each is greater than = %v", c09KindNames, h.o.rank), nil)
-	}
-	order := make([]string, c09NKinds)
-	for k := c09Kind(0); k < c09NKinds; k++ {
-		if r := h.o.rank[k]; r < len(order) && order[r] == "" {
-			order[r] = c09KindNames[k]
+	bad := ""
+	for k := c09Kind(0); k < c09NKinds && bad == ""; k++ {
+		for k2 := c09Kind(0); k2 < c09NKinds && bad == ""; k2++ {
+			if k == k2 {
+				continue
+			}
+			x := ko[k][k2]
+			if x != -1 && x != 1 && !(x == 0 && c09FnPair(k, k2)) {
+				bad = fmt.Sprintf("%s vs %s is %s", c09KindNames[k], c09KindNames[k2], c09OrdName(x))
+			} else if ko[k2][k] != -x {
+				bad = fmt.Sprintf("%s vs %s is %s but %s vs %s is %s", c09KindNames[k], c09KindNames[k2], c09OrdName(x), c09KindNames[k2], c09KindNames[k], c09OrdName(ko[k2][k]))
+			}
+			for k3 := c09Kind(0); k3 < c09NKinds && bad == ""; k3++ {
+				if k3 != k && k3 != k2 && x == -1 && ko[k2][k3] == -1 && ko[k][k3] != -1 {
+					bad = fmt.Sprintf("%s < %s < %s but %s vs %s is %s", c09KindNames[k], c09KindNames[k2], c09KindNames[k3], c09KindNames[k], c09KindNames[k3], c09OrdName(ko[k][k3]))
+				}
+			}
 		}
 	}
-	h.c.Set("observed_type_order", strings.Join(order, " < "))
+	if bad != "" {
+		h.c.Violate("total-type-order", "compare &total does not order the types strictly and totally (on the first pool value of each type): "+bad, nil)
+	}
+	order := make([]c09Kind, c09NKinds)
+	for k := range order {
+		order[k] = c09Kind(k)
+	}
+	sort.SliceStable(order, func(x, y int) bool { return ko[order[x]][order[y]] == -1 })
+	names := make([]string, len(order))
+	for i, k := range order {
+		names[i] = c09KindNames[k]
+	}
+	h.c.Set("observed_type_order", strings.Join(names, " < "))
 }
 
 func (h *c09H) pairPhase() {
@@ -1078,7 +1139,7 @@ func (h *c09H) pairPhase() {
 // instance of b gives the same results.
 func (h *c09H) observe(i, j int) {
 	a, b := h.p.vs[i], h.p.vs[j]
-	order := int64(i)*int64(len(h.p.vs)) + int64(j)
+	order := h.order(i, j)
 	replay := []string{a.src, b.src}
 	var eq, eq2 bool
 	var cm, cm2, to, to2 vals.Ordering
@@ -1103,7 +1164,7 @@ func (h *c09H) observe(i, j int) {
 
 func (h *c09H) pair(l *vk.Local, w *c09Evaler, i, j int, nj *[4]int64) {
 	a, b := h.p.vs[i], h.p.vs[j]
-	order := int64(i)*int64(len(h.p.vs)) + int64(j)
+	order := h.order(i, j)
 	replay := []string{a.src, b.src}
 	viol := func(key, format string, args ...any) {
 		h.violate(order, key, replay, func() string {
@@ -1180,8 +1241,9 @@ func (h *c09H) pair(l *vk.Local, w *c09Evaler, i, j int, nj *[4]int64) {
 			if res[k] != c09B(want[name]) {
 				// the six commands share one implementation of mixed comparison
 				key := "builtin-value:" + name
-				asIfEqual := name == "==" || name == "<=" || name == ">="
-				if c09Mixed(a.n, b.n) && !nan && ord != 0 && res[k] == c09B(asIfEqual) {
+				via := c09ViaFloat(a.n, b.n)
+				viaWant := map[string]bool{"==": via == 0, "!=": via != 0, "<": via < 0, "<=": via <= 0, ">": via > 0, ">=": via >= 0}
+				if c09Mixed(a.n, b.n) && !nan && res[k] == c09B(viaWant[name]) {
 					key = "builtin-value:numeric-comparison:mixed-exact-inexact"
 				}
 				viol(key, "`%s $a $b` gives %s, documented (numerical comparison of the mathematical values): %s", name, c09Bool2(res[k]), c09Bool2(c09B(want[name])))
@@ -1243,7 +1305,7 @@ func (h *c09H) lawPhase() {
 			if m.cmp[i][j] != c09Unc && m.tot[i][j] != m.cmp[i][j] {
 				c.Violate("total-agrees-with-cmp", fmt.Sprintf("%s: compare gives %s but compare &total gives %s", tag, c09OrdName(m.cmp[i][j]), c09OrdName(m.tot[i][j])), replay)
 			}
-			if a.kind != b.kind && m.tot[i][j] == 0 {
+			if a.kind != b.kind && !c09FnPair(a.kind, b.kind) && m.tot[i][j] == 0 {
 				c.Violate("total-groups-by-type", fmt.Sprintf("%s: values of different types compare equal under compare &total", tag), replay)
 			}
 		}
@@ -1291,7 +1353,7 @@ func (h *c09H) triplePhase() {
 			want = -1
 		}
 		if ac != want {
-			h.violate((int64(i)*int64(n)+int64(j))*int64(n)+int64(k), law+h.suffix(obs, orc, [2]int{i, j}, [2]int{j, k}, [2]int{i, k}),
+			h.violate(h.order(i, j, k), law+h.suffix(obs, orc, [2]int{i, j}, [2]int{j, k}, [2]int{i, k}),
 				[]string{h.p.vs[i].src, h.p.vs[j].src, h.p.vs[k].src}, func() string {
 					return fmt.Sprintf("a = %s, b = %s, c = %s: a vs b is %s, b vs c is %s, but a vs c is %s (transitivity requires %s)",
 						h.name(i), h.name(j), h.name(k), c09OrdName(ab), c09OrdName(bc), c09OrdName(ac), c09OrdName(want))
@@ -1304,7 +1366,7 @@ func (h *c09H) triplePhase() {
 			eij := m.eq[i][j] == 1
 			for k := 0; k < n; k++ {
 				if eij && m.eq[j][k] == 1 && m.eq[i][k] != 1 {
-					h.violate((int64(i)*int64(n)+int64(j))*int64(n)+int64(k), "eq-transitive", []string{h.p.vs[i].src, h.p.vs[j].src, h.p.vs[k].src}, func() string {
+					h.violate(h.order(i, j, k), "eq-transitive", []string{h.p.vs[i].src, h.p.vs[j].src, h.p.vs[k].src}, func() string {
 						return fmt.Sprintf("a = %s, b = %s, c = %s: eq a b and eq b c but not eq a c", h.name(i), h.name(j), h.name(k))
 					})
 				}
@@ -1335,7 +1397,7 @@ func TestVerifC09(t *testing.T) {
 		for _, v := range p.vs {
 			kinds[v.sub]++
 		}
-		c.Rule(fmt.Sprintf("a pool of %d values (%v): $nil, booleans, 13 strings (some numeric), 28 exact and 21 inexact numbers at and around 0, 1, 2^53, 2^63, 2^64, the float64 range limits, +-0.0, +-Inf, NaN, two closures, two builtin functions, $ok, maps, two pseudo-maps, lists and nested lists over them; every ordered pair (real vals.Equal, vals.Cmp, vals.CmpTotal and the builtins compare, compare &total, eq, not-eq, == != < <= > >= through Evaler.Eval, each on two separately constructed instances) and every ordered triple (laws on the observed relations); class = (sub-kinds of the values, observed eq/compare/compare &total results)", n, kinds))
+		c.Rule(fmt.Sprintf("a pool of %d values (%v): $nil, booleans, strings (some numeric), 28 exact and 21 inexact numbers at and around 0, 1, 2^53, 2^63, 2^64, the float64 range limits, +-0.0, +-Inf, NaN, two closures, two builtin functions, $ok, maps, two pseudo-maps, lists and nested lists over them; every ordered pair (real vals.Equal, vals.Cmp, vals.CmpTotal and the builtins compare, compare &total, eq, not-eq, == != < <= > >= through Evaler.Eval, each on two separately constructed instances) and every ordered triple (laws on the observed relations); class = (sub-kinds of the values, observed eq/compare/compare &total results)", n, kinds))
 		c.Assume("the pool values are constructed by the real evaluator from source text and checked against their descriptors (Go representation, canonical number form) before use",
 			"not judged (documentation silent): eq of an exact and an inexact number with the same value, eq of 0.0 and -0.0, eq of a pseudo-map and a map with the same content, and whether closures and builtin functions count as one type for compare &total",
 			"the order of types under compare &total is unspecified: the observed order is used after checking that it is a strict total order",
